@@ -171,6 +171,17 @@ pub fn gen_borrow() -> Generated {
         // T3 outlive the cache
         emit(&mut src, &mut probes, &name, "outlive-the-cache", false, vec!["E0597"], &format!("    let r;\n    {{\n    {}\n        r = {};\n    }}\n    sink(r);", setup.replace('\n', "\n    "), me.call));
         emit(&mut src, &mut probes, &name, "outlive-the-cache", true, vec![], &format!("    {{\n    {}\n        let r = {};\n        sink(r);\n    }}", setup.replace('\n', "\n    "), me.call));
+        // T3b the *items* an iterator hands out must not outlive a mutation / the cache either
+        if me.iterator {
+            emit(&mut src, &mut probes, &name, "item-across-mutation", false, vec!["E0502"], &format!("{setup}\n    let mut it = {};\n    let x = it.next();\n    drop(it);\n    c.purge();\n    sink(x);", me.call));
+            emit(&mut src, &mut probes, &name, "item-across-mutation", true, vec![], &format!("{setup}\n    let mut it = {};\n    let x = it.next();\n    drop(it);\n    sink(x);\n    c.purge();", me.call));
+            emit(&mut src, &mut probes, &name, "item-outlives-cache", false, vec!["E0505"], &format!("{setup}\n    let mut it = {};\n    let x = it.next_back();\n    drop(it);\n    drop(c);\n    sink(x);", me.call));
+            if me.ret_mut {
+                // two items of one mutable iterator are distinct entries: fine; but an item must
+                // not coexist with a second mutable iterator over the same list
+                emit(&mut src, &mut probes, &name, "item-and-second-mutable-iterator", false, vec!["E0499"], &format!("{setup}\n    let mut it = {};\n    let x = it.next();\n    let mut it2 = {};\n    let y = it2.next();\n    sink(x);\n    sink(y);", me.call, me.call));
+            }
+        }
         // T4 two live mutable references
         if me.ret_mut {
             emit(&mut src, &mut probes, &name, "double-mutable", false, vec!["E0499"], &format!("{setup}\n    let a = {};\n    let b = {};\n    sink(a);\n    sink(b);", me.call, me.call));
